@@ -71,6 +71,22 @@ def spell(rng, k):
 ODD_KEYS = [b"a b", b"", b"a.b", "é".encode(), b"a\"b", b"'", b" ", b"a\tb"]
 
 
+def render_value(rng, v):
+    if v[0] == "i":
+        return b"1"
+    if v[0] == "a":
+        return b"[" + b", ".join(render_value(rng, e) for e in v[1]) + b"]"
+    return render_inline(rng, v)
+
+
+def render_inline(rng, v):
+    """{ path = value, path = value } with every key spelled at random"""
+    pairs = []
+    for path, val in v[1]:
+        pairs.append(b".".join(spell(rng, k) for k in path) + b" = " + render_value(rng, val))
+    return b"{" + b", ".join(pairs) + b"}"
+
+
 def render(rng, stmts):
     out = []
     for st in stmts:
@@ -89,7 +105,7 @@ def render(rng, stmts):
             elif v[0] == "a":
                 vt = b"[1]"
             else:
-                vt = b"{" + b".".join(v[1][0][0]) + b" = 1}"
+                vt = render_inline(rng, v)
             out.append(p + b" = " + vt)
     return b"\n".join(out) + b"\n"
 
@@ -132,6 +148,18 @@ def gen_cases(rng, tier):
             break                # 36^4 is done once, on the plain alphabet
         for seq in itertools.product(oatoms, repeat=n):
             add(list(seq), "enum-odd%d" % n)
+    # INSIDE one inline table: every sequence of <= 3 pairs over paths of length <= 3 on {a, b} with values
+    # 1 / {c = 1} / {c.d = 1} / [1] - a dotted key may not enter or extend an inline table, an array or a scalar defined by an
+    # earlier pair, whatever the depth at which they meet
+    ipaths = [(x,) for x in alpha] + [(x, y) for x in alpha for y in alpha] + [(b"a", b"b", y) for y in (b"a", b"d")]
+    ivals = [("i", 1), ("t", [([b"c"], ("i", 1))]), ("t", [([b"c", b"d"], ("i", 1))]), ("a", [("i", 1)])]
+    iatoms = [(list(pth), v) for pth in ipaths for v in ivals]
+    for n in (1, 2, 3):
+        seqs = itertools.product(iatoms, repeat=n)
+        if n == 3 and tier == "quick":
+            seqs = [tuple(rng.choice(iatoms) for _ in range(3)) for _ in range(6000)]
+        for seq in seqs:
+            add([("kv", [b"t"], ("t", [(p_, v_) for p_, v_ in seq]))], "inline%d" % n)
     # random longer sequences
     alpha3 = [b"a", b"b", b"c"]
     n_rand = 12000 if tier == "quick" else 150000
